@@ -260,6 +260,17 @@ func (dm *DMap) readRepair(winner *version, versions []*version) {
 			}
 
 			f.Lock()
+			for f.isClosed() {
+				// Wiped out by the janitor while we were waiting for the lock. Try again with a fresh fragment.
+				f.Unlock()
+				f, err = dm.loadOrCreateFragment(part)
+				if err != nil {
+					dm.s.log.V(3).Printf("[ERROR] Failed to get or create the fragment for: %s on %s: %v",
+						winner.entry.Key(), dm.name, err)
+					return
+				}
+				f.Lock()
+			}
 			e := newEnv(context.Background())
 			e.hkey = hkey
 			e.fragment = f
